@@ -1,0 +1,67 @@
+//go:build verif
+
+// Contracts for the verif build tag (read by /verif/govc; comment-only).
+package batch
+
+// Completing a write batch hands every operation's callback the response at the same
+// position of the matching list (puts with puts, deletes with deletes, range deletes
+// with range deletes), once per operation, and never indexes past a response list.
+// The user callbacks are arbitrary code: they are assumed not to touch the batch.
+//
+//@ func writeBatch.handle(b, response)
+//@ property C20
+//@ requires response != nil && len(response.Puts) == len(b.puts) && len(response.Deletes) == len(b.deletes) && len(response.DeleteRanges) == len(b.deleteRanges)
+//@ requires forall i int :: 0 <= i && i < len(b.puts) ==> b.puts[i].Callback != nil
+//@ requires forall i int :: 0 <= i && i < len(b.deletes) ==> b.deletes[i].Callback != nil
+//@ requires forall i int :: 0 <= i && i < len(b.deleteRanges) ==> b.deleteRanges[i].Callback != nil
+//@ callback * pure
+//@ assert at call $dyn#0: arg0 == response.Puts[i] && arg1 == nil
+//@ assert at call $dyn#1: arg0 == response.Deletes[i] && arg1 == nil
+//@ assert at call $dyn#2: arg0 == response.DeleteRanges[i] && arg1 == nil
+//@ modifies nothing
+
+// Failing a batch hands every operation's callback the error and no response.
+//
+//@ func writeBatch.Fail(b, err)
+//@ property C20
+//@ requires forall i int :: 0 <= i && i < len(b.puts) ==> b.puts[i].Callback != nil
+//@ requires forall i int :: 0 <= i && i < len(b.deletes) ==> b.deletes[i].Callback != nil
+//@ requires forall i int :: 0 <= i && i < len(b.deleteRanges) ==> b.deleteRanges[i].Callback != nil
+//@ callback * pure
+//@ assert at call $dyn#0: arg0 == nil && arg1 == err
+//@ assert at call $dyn#1: arg0 == nil && arg1 == err
+//@ assert at call $dyn#2: arg0 == nil && arg1 == err
+//@ modifies nothing
+
+//@ func writeBatch.Size
+//@ property C20
+//@ pure
+//@ requires len(b.puts) < 2305843009213693952 && len(b.deletes) < 2305843009213693952 && len(b.deleteRanges) < 2305843009213693952
+//@ reads fields(writeBatch)
+//@ ensures result == len(b.puts) + len(b.deletes) + len(b.deleteRanges)
+
+//@ func writeBatch.toProto
+//@ trusted
+//@ modifies nothing
+//@ ensures result != nil && fresh(result)
+//@ note trusted: generic model.Convert over the three operation lists
+
+//@ func writeBatch.doRequestWithRetries(b, request) (response, err)
+//@ trusted
+//@ modifies nothing
+//@ note trusted: retry loop around the RPC (external backoff library, closures)
+
+// Complete: an empty batch does nothing; otherwise the request is executed and exactly
+// one of Fail (on error) and handle (on success) distributes the outcome.
+//
+//@ func writeBatch.Complete(b)
+//@ property C20
+//@ requires b.callback != nil && len(b.puts) < 2305843009213693952 && len(b.deletes) < 2305843009213693952 && len(b.deleteRanges) < 2305843009213693952
+//@ requires forall i int :: 0 <= i && i < len(b.puts) ==> b.puts[i].Callback != nil
+//@ requires forall i int :: 0 <= i && i < len(b.deletes) ==> b.deletes[i].Callback != nil
+//@ requires forall i int :: 0 <= i && i < len(b.deleteRanges) ==> b.deleteRanges[i].Callback != nil
+//@ callback * pure
+//@ assume at call doRequestWithRetries#0: err == nil ==> response != nil && len(response.Puts) == len(b.puts) && len(response.Deletes) == len(b.deletes) && len(response.DeleteRanges) == len(b.deleteRanges) because "the server answers a write request with one response per operation (db.ProcessWrite / applyWriteRequest, proved under C12) and toProto sends exactly the batch's operations"
+//@ assert at call Fail#0: err != nil
+//@ assert at call handle#0: err == nil
+//@ modifies nothing
